@@ -148,7 +148,10 @@ func (e *Explorer) setScenario(sc *scenario) bool {
 
 const unset = "\x00<observer did not finish>"
 
-// run executes one schedule on a fresh shared error.
+// run executes one schedule on a brand-new shared error. Nothing observes
+// that object before the threads do: reference results (soloOf) come from
+// twins built the same way, so per-object lazy initialisation is cold in
+// every execution.
 func (e *Explorer) run(devs []verifsched.Dev, x *verifsched.Exec) {
 	e.shared = e.sc.shape.Build()
 	for i := range e.res {
